@@ -172,6 +172,13 @@ def gen_client_ops(rng, thorough=False):
         o = rand_op(rng)
         o["pdu"] = good_reply(rng, o)
         steps.append(o)
+    c = rand_op(rng)
+    c["peer"] = "reset"
+    steps.append(c)
+    for _ in range(2):
+        o = rand_op(rng)
+        o["pdu"] = good_reply(rng, o)
+        steps.append(o)
     steps.append({"op": "disable"})
     for _ in range(2):
         o = rand_op(rng)
